@@ -153,6 +153,19 @@ template <class F> static int attack(const char *what, const std::string &good, 
     if (!accepted(good, import)) { printf("%s: the unmodified export is not importable (oracle self-check)\n", what); return 1; }
     return 0;
 }
+// FILE transport: the import of a mistyped or truncated input must terminate the process (there is no stream state to inspect)
+template <class F> static int accepted_file(const std::string &bytes, F import) {
+    fflush(stdout); pid_t pid = fork();
+    if (pid == 0) { fclose(stderr); FILE *f = fmemopen((void *)bytes.data(), bytes.size(), "rb"); if (!f) _exit(4); import(f); _exit(0); }
+    int st = 0; waitpid(pid, &st, 0); return WIFEXITED(st) && WEXITSTATUS(st) == 0;
+}
+template <class F> static int attack_file(const char *what, const std::string &good, F import) {
+    int32_t own; memcpy(&own, good.data(), 4);
+    for (int32_t t : ALL_TAGS) if (t != own) { std::string b = good; memcpy(&b[0], &t, 4); if (accepted_file(b, import)) { printf("%s (FILE): section with type tag %d (own tag %d) is imported and the process goes on\n", what, t, own); return 1; } }
+    for (size_t len = 1; len < good.size(); len++) if (accepted_file(good.substr(0, len), import)) { printf("%s (FILE): truncated input (%zu of %zu bytes) is imported and the process goes on\n", what, len, good.size()); return 1; }
+    if (!accepted_file(good, import)) { printf("%s (FILE): the unmodified export is not importable (oracle self-check)\n", what); return 1; }
+    return 0;
+}
 static size_t binpos(const std::string &s, int32_t tag) { for (size_t i = s.size() >= 4 ? s.size() - 4 : 0; ; i--) { int32_t v; memcpy(&v, s.data() + i, 4); if (v == tag && (i == 0 || s[i - 1] == '\n')) return i; if (i == 0) break; } return std::string::npos; }
 static int mistyped() {
     LweParams *lp = new_LweParams(5, 0.25, 0.5); TLweParams *tp = new_TLweParams(8, 2, 0.25, 0.5); TGswParams *gp = new_TGswParams(2, 8, tp);
@@ -164,6 +177,8 @@ static int mistyped() {
     LweKeySwitchKey *ks = new_LweKeySwitchKey(3, 2, 1, lp); for (int i = 0; i < 3; i++) for (int j = 0; j < 2; j++) for (int h = 0; h < 2; h++) { for (int p = 0; p < 5; p++) ks->ks[i][j][h].a[p] = i * 100 + j * 10 + h + p; ks->ks[i][j][h].b = 5; ks->ks[i][j][h].current_variance = 0.01; }
     { std::ostringstream o; export_lweSample_toStream(o, ls, lp); LweSample *d = new_LweSample(lp); if (attack("LWE sample", o.str(), 0, [&](std::istream &in) { import_lweSample_fromStream(in, d, lp); })) return 1; }
     { std::ostringstream o; export_tlweSample_toStream(o, ts, tp); TLweSample *d = new_TLweSample(tp); if (attack("TLWE sample", o.str(), 0, [&](std::istream &in) { import_tlweSample_fromStream(in, d, tp); })) return 1; }
+    { std::ostringstream o; export_lweSample_toStream(o, ls, lp); LweSample *d = new_LweSample(lp); if (attack_file("LWE sample", o.str(), [&](FILE *f) { import_lweSample_fromFile(f, d, lp); })) return 1; }
+    { std::ostringstream o; export_tlweSample_toStream(o, ts, tp); TLweSample *d = new_TLweSample(tp); if (attack_file("TLWE sample", o.str(), [&](FILE *f) { import_tlweSample_fromFile(f, d, tp); })) return 1; }
     { std::ostringstream o; export_tgswSample_toStream(o, gs, gp); TGswSample *d = new_TGswSample(gp); if (attack("TGSW sample", o.str(), 0, [&](std::istream &in) { import_tgswSample_fromStream(in, d, gp); })) return 1; }
     { std::ostringstream o; export_lweKey_toStream(o, lk); std::string b = o.str(); size_t p = binpos(b, 43); if (p == std::string::npos) { printf("LWE key export: tag not found\n"); return 1; } if (attack("LWE key", b, p, [&](std::istream &in) { (void)new_lweKey_fromStream(in); })) return 1; }
     { std::ostringstream o; export_tlweKey_toStream(o, tk); std::string b = o.str(); size_t p = binpos(b, 85); if (p == std::string::npos) { printf("TLWE key export: tag not found\n"); return 1; } if (attack("TLWE key", b, p, [&](std::istream &in) { (void)new_tlweKey_fromStream(in); })) return 1; }
